@@ -197,6 +197,18 @@ func checkC18(w *World, r *Report) {
 			call := sc.(*ssa.Call)
 			name := w.AP(call.Call.Args[0])
 			okG := false
+			// the guard may also be one presence test of the reserved name in the ranged map, before the loop
+			if strings.HasPrefix(name, "rangekey(") && (guard == nil || guard.Atom.L != name) {
+				m := strings.TrimSuffix(strings.TrimPrefix(name, "rangekey("), ")")
+				for i, f := range facts {
+					if f.Atom.Op == "true" && f.Atom.L == "has("+m+"[\"__jobID\"])" {
+						g := facts[i]
+						res := PathQuery{Fn: vfn, Target: func(x ssa.Instruction) bool { return x == ssa.Instruction(call) }, BlockEdge: func(b *ssa.BasicBlock, s int) bool { return b == g.If.Block() && s == g.SuccFalse }}.Find()
+						errRet := blockReturns(g.If.Block().Succs[g.SuccTrue], func(rt *ssa.Return) bool { return len(rt.Results) == 2 && !isNilConst(rt.Results[1]) })
+						okG = !res.Found && errRet
+					}
+				}
+			}
 			if guard != nil && guard.Atom.L == name {
 				res := PathQuery{Fn: vfn, Target: func(x ssa.Instruction) bool { return x == ssa.Instruction(call) }, BlockEdge: func(b *ssa.BasicBlock, s int) bool { return b == guard.If.Block() && s == guard.SuccFalse }}.Find()
 				errRet := blockReturns(guard.If.Block().Succs[guard.SuccTrue], func(rt *ssa.Return) bool { return len(rt.Results) == 2 && !isNilConst(rt.Results[1]) })
